@@ -21,7 +21,7 @@ Prep(q) ==
        theta |-> [j \in 1..q.npts |-> Coverage(n[j], nmax)],
        L |-> [j \in 1..q.npts |-> SL(j)],
        W |-> [j \in 1..q.npts |-> WidthOf("slit", SL(j), q.h)],
-       over |-> ov, overL |-> OverL(q.geo),
+       over |-> ov, overL |-> OverL(q.geo), dup |-> DupIdx(q.perm, q.npts),
        pi |-> PermSeq(q.perm, q.npts),
        d0 |-> D0(q.a, q.h)]
 
